@@ -86,6 +86,9 @@ def parseOp (s : String) : Option Op :=
   | ["link", a, b] => some (.link (parsePath a) (parsePath b))
   | ["unlink", p] => some (.unlink (parsePath p))
   | ["rmdir", p] => some (.rmdir (parsePath p))
+  -- "nl": the harness learns the entry from READDIRPLUS instead of LOOKUP; same request
+  | ["unlink", p, _] => some (.unlink (parsePath p))
+  | ["rmdir", p, _] => some (.rmdir (parsePath p))
   | ["open", p, f] => some (.open (parsePath p) (parseFlag f))
   | ["write", p, f, o, d] => some (.write (parsePath p) (parseFlag f) (o.toNat?.getD 0) (parseChunks d))
   | ["read", p] => some (.read (parsePath p))
